@@ -62,11 +62,19 @@ CLAIMS["C01"] = dict(
          "(FcProps/C01liveG.lean; executor for groups Fc/ExecG.lean): a FutureGroup of well-behaved futures / StreamGroup of "
          "well-behaved streams, plain or keyed, both strategies, built from the empty group by any history of "
          "insert/extend/reserve with fresh members, reaches its final None within 3*steps+1 rounds (only the scripts of the "
-         "inserted members are constrained; +1 shown necessary). For nests, and for groups whose membership changes while "
-         "they are being drained, liveness is checked on the real code only: the harness's fair wake-only executor (profiles "
-         "drain, refill) must never get stuck (monitor LV).",
+         "inserted members are constrained; +1 shown necessary); C01_group_ends_any / _busy (FcProps/C01liveGAny.lean): for "
+         "every schedule and arbitrary further wake-ups (stale wakers of released members, ids never inserted); "
+         "C01_group_refill_ends (+_busy, C01_group_drain_refill_drain): after draining, a second generation of fresh members "
+         "in reused slots is drained again within the bound (iterates). Theorems C01_kernel_state_fixed / _group "
+         "(FcProps/C01state.lean): at every boundary of every history the cached ready count equals the number of set bits "
+         "below the capacity, no bit is set beyond it, and a parent waker is stored once any child holds a waker - the "
+         "internal state the stdv configuration reads from the crate after every operation and compares with the model. For "
+         "nests, and for groups whose membership changes while they are being drained, liveness is checked on the real code "
+         "only: the harness's wake-only executor (profiles drain, refill) must never get stuck (monitor LV; the environment "
+         "never re-wakes a child that already invoked its waker, the round budget is a multiple of the proven bound, and a "
+         "watchdog turns a deadlock into a reported case).",
     note=TB + " Liveness by theorem for join, try_join, race, race_ok, merge, chain, zip, wait_until (for every schedule "
-         "of the environment) and for groups filled before they are drained (first-waiting schedule); for nests "
+         "of the environment) and for groups filled before they are drained and refilled between drains (every schedule); for nests "
          "by the drain runs on the real code. In the configuration stdv the crate's fc-verif hook exposes the readiness "
          "bits / cached count / parent-waker flag, compared with the model's World after every operation.",
     design_ref="DESIGN.md §7 C01, Appendix A")
